@@ -121,6 +121,14 @@ def run_lite(sim, nfc, params):
                                     "authenticate(%s password) returned %r, the tag %s that key; %r"
                                     % (name, got, "holds" if want else "does not hold", desc))
                 sim.probe("auth.true" if want else "auth.false")
+                if want:
+                    # the same Tag object authenticates again (e.g. after other commands wrote to the card)
+                    again = call_auth(sim, tag, pw, desc, name + "-again")
+                    if again is not True:
+                        raise Violation("authenticate-again", "%s %s" % (prod, name),
+                                        "a second authenticate(%s password) on the same tag object returned %r, the first "
+                                        "returned True and the tag holds that key; %r" % (name, again, desc))
+                    sim.probe("auth.again")
                 if want and (w.silicon.mac_reads < 1 or (lite_s and w.silicon.mac_a_writes_ok < 1)):
                     raise Violation("authenticate-shortcut", prod, "authenticate returned True without the tag producing a MAC"
                                     "%s; %r" % (" / accepting the MAC_A write" if lite_s else "", desc))
@@ -144,6 +152,12 @@ def run_lite(sim, nfc, params):
                                 "protect(%s) raised %r (%s); %r" % (pw_kind, e, core.exc_line(e), desc))
             if r is not True:
                 raise Violation("protect-failed", prod, "protect(%s) on a factory tag returned %r; %r" % (pw_kind, r, desc))
+            if sim.chance("same.object", 0.5):
+                got = call_auth(sim, tag, pw, desc, "after-protect-same-object")
+                if got is not True:
+                    raise Violation("protect-then-authenticate", "%s same object" % prod, "protect(%s password) succeeded but "
+                                    "authenticate with the same password on the same tag object returns %r; %r" % (pw_kind, got, desc))
+                sim.probe("protect.then.auth.same_object")
             tag2 = w.restart()
             got = call_auth(sim, tag2, pw, desc, "after-protect")
             sim.cls(prod, "protect", pw_kind, repr(got))
